@@ -2,11 +2,6 @@ module verifharness
 
 go 1.25.0
 
-require (
-	github.com/anishathalye/porcupine v1.3.0
-	github.com/openGemini/openGemini v0.0.0
-)
-
 replace (
 	github.com/VictoriaMetrics/VictoriaMetrics => /repo/lib/util/lifted/VictoriaMetrics
 	github.com/influxdata/influxdb => /repo/lib/util/lifted/influxdb
